@@ -66,10 +66,13 @@ def cv_inverse_mod(self, a, m):
 
 
 # pycoin/ecdsa/Curve.py :: Curve.contains_point
+# pycoin/ecdsa/Curve.py :: Curve.contains_point
 def cv_contains_point(self, x, y):
     if x is None and y is None:
         return True
     assert x is not None and y is not None
+    if not (0 <= x < self._p and 0 <= y < self._p):
+        return False
     return (y * y - (x * x * x + self._a * x + self._b)) % self._p == 0
 
 
@@ -170,8 +173,11 @@ def gn_modular_sqrt(self, a):
 
 
 # pycoin/ecdsa/Generator.py :: Generator.points_for_x
+# pycoin/ecdsa/Generator.py :: Generator.points_for_x
 def gn_points_for_x(self, x):
     p = self._p
+    if not 0 <= x < p:
+        raise ValueError()
     alpha = (pow(x, 3, p) + self._a * x + self._b) % p
     y0 = self.modular_sqrt(alpha)
     if y0 == 0:
